@@ -76,8 +76,11 @@ def handle5 (op : String) (a obs : List String) : Option Verdict :=
     -- them or because of them; the streams opened after the hold are delivered like any other
     let hold := (parseNat (get a 6)).getD 0
     let model := if hold > 0 then model ++ [if parked then "after_hold=0/2" else "after_hold=2/2"] else model
+    -- delivered while the stalled streams are still stalled, not only when the close ends them
+    let model := model ++ [if parked then "in_time=false" else "in_time=true"]
     let model := if hold > 0 && !Generated.DRIVER_TIMER_FREE then obs else model
     let prop := check [("no_trap", !isTrap obs),
+      ("healthy_traffic_delivered_while_the_stalled_streams_stay_stalled", field obs "in_time" == "true"),
       ("streams_opened_after_a_long_stall_delivered", hold == 0 || field obs "after_hold" == "2/2"),
       ("healthy_streams_of_the_stalled_kind_delivered", field obs (if uni then "uni" else "bi") == "3/3"),
       ("streams_of_the_other_kind_delivered", field obs (if uni then "bi" else "uni") == "3/3"),
